@@ -354,6 +354,18 @@ def history_failures(rec, params, problem):
                 out.append(("C16:rho_changes_only_on_accepted_step", (k, t["rho"], T[k + 1]["rho"])))
             if params.penalty_update == PenaltyUpdate.DualNorm and T[k + 1]["rho"] > 10 * t["rho"]:
                 out.append(("C16:dualnorm_at_most_x10", (k, t["rho"], T[k + 1]["rho"])))
+        if t["accepted"] and getattr(params.step_control_type, "name", "") == "Exact":
+            # exact step control: an accepted iterate solves the implicit Euler equation of its step to newton_tol
+            # (independent re-evaluation with the UNSCALED residual function of the definition)
+            from pygradflow.implicit_func import ImplicitFunc
+
+            try:
+                Fv = ImplicitFunc(t["start"].problem, t["start"], t["dt"]).value_at(t["res"].iterate, t["rho"])
+                r = float(np.linalg.norm(Fv))
+                if not (r <= params.newton_tol * (1 + 1e-6)):
+                    out.append(("C15:exact_control:accepted_iterate_solves_the_implicit_Euler_equation_to_newton_tol", (k, r, params.newton_tol)))
+            except Exception:  # noqa
+                pass
         if not (t["rho"] > 0):
             out.append(("C16:rho>0", (k, t["rho"])))
         if not (1.0 / t["dt"] < params.lamb_max):
@@ -600,12 +612,52 @@ def solve_observers(tier="quick", seed=0, only=None):
                 diff = _same_trajectory(ref, rec)
                 if diff:
                     failures.append(dict(label=f"C09:observer_changes_trajectory:{vn}", input=inp, observed=diff))
+    # condition-estimate reporting with an ITERATIVE linear solver (its extra solves may fail where the Newton solve
+    # succeeds): report_rcond must still not change or break the run
+    from pygradflow.problem import Problem as _Problem
+    import scipy.sparse as _sp
+
+    class Rosenbrock(_Problem):
+        def __init__(self):
+            super().__init__(np.array([-np.inf, -np.inf]), np.array([np.inf, np.inf]))
+
+        def obj(self, x):
+            return (1 - x[0]) ** 2 + 100 * (x[1] - x[0] ** 2) ** 2
+
+        def obj_grad(self, x):
+            return np.array([-2 * (1 - x[0]) - 400 * x[0] * (x[1] - x[0] ** 2), 200 * (x[1] - x[0] ** 2)])
+
+        def cons(self, x):
+            return np.array([])
+
+        def cons_jac(self, x):
+            return _sp.coo_matrix((0, 2))
+
+        def lag_hess(self, x, y):
+            return _sp.coo_matrix(np.array([[2 - 400 * (x[1] - 3 * x[0] ** 2), -400 * x[0]], [-400 * x[0], 200.0]]))
+
+    for prec in ("Single", "Double"):
+        for ss in STEP_SOLVERS:
+            for nt in (NEWTON[:1] if tier == "quick" else NEWTON[:3]):
+                inp = dict(scenario="rosenbrock", precision=prec, step_solver=ss, newton=nt, linear_solver="GMRES", observer="report_rcond")
+                if only is not None and only != inp:
+                    continue
+                base = dict(precision=enum("Precision", prec), step_solver_type=enum("StepSolverType", ss), newton_type=enum("NewtonType", nt), linear_solver_type=enum("LinearSolverType", "GMRES"), iteration_limit=80)
+                ref = run(Rosenbrock(), mk_params(**base), np.array([0.0, 0.0]), None, callbacks=False)
+                rec = run(Rosenbrock(), mk_params(report_rcond=True, **base), np.array([0.0, 0.0]), None, callbacks=False)
+                cases += 1
+                if rec.exc is not None and ref.exc is None:
+                    failures.append(dict(label=f"C09:observer_makes_solve_fail:report_rcond:{type(rec.exc).__name__}", input=inp, observed=f"{type(rec.exc).__name__}: {str(rec.exc)[:200]}"))
+                    continue
+                diff = _same_trajectory(ref, rec)
+                if diff:
+                    failures.append(dict(label="C09:observer_changes_trajectory:report_rcond", input=inp, observed=diff))
     seen, uniq = set(), []
     for f in failures:
         if f["label"] not in seen:
             seen.add(f["label"])
             uniq.append(f)
-    return result(cases, uniq, f"scenarios {names} x controllers {ctrls} x 5 observer variants")
+    return result(cases, uniq, f"scenarios {names} x controllers {ctrls} x 5 observer variants; Rosenbrock x GMRES x precisions x step solvers with / without report_rcond")
 
 
 @native("native.solve.box", ["C05"])
